@@ -57,3 +57,31 @@ Fixpoint wait_empty (len : nat) (obs : list wait_obs) : option (bool * nat) :=
            | Woken l :: r => wait_empty l r
            end
   end.
+
+(* ---------------------------------------------------------------------------------------- *)
+(* Waiters on the "queue empty" condition (ares_queue_wait_empty / ares_queue_notify_empty).
+   [broadcast] selects what the notification does: wake every waiter (ares_thread_cond_broadcast,
+   the code) or only one (ares_thread_cond_signal). *)
+Record wq := mkWQ { w_len : nat;              (* outstanding requests *)
+                    w_blocked : list nat }.   (* waiters blocked in cond_wait *)
+
+Inductive wev :=
+| WSubmit                 (* a request is accepted *)
+| WEnter (i : nat)        (* thread i calls ares_queue_wait_empty *)
+| WDone.                  (* a request completes; ares_queue_notify_empty runs *)
+
+Definition wstep (broadcast : bool) (s : wq) (e : wev) : wq :=
+  match e with
+  | WSubmit => mkWQ (S (w_len s)) (w_blocked s)
+  | WEnter i => match w_len s with
+                | 0 => s                                   (* returns at once *)
+                | S _ => mkWQ (w_len s) (i :: w_blocked s) (* blocks in cond_wait *)
+                end
+  | WDone => match w_len s with
+             | 0 => s
+             | 1 => mkWQ 0 (if broadcast then [] else tl (w_blocked s))   (* notify: queue is empty *)
+             | S n => mkWQ n (w_blocked s)
+             end
+  end.
+
+Definition wrun (broadcast : bool) (tr : list wev) : wq := fold_left (wstep broadcast) tr (mkWQ 0 []).
